@@ -58,11 +58,20 @@ def gen_history(rng, strings, idx):
             continue
         if op in ("write", "append"):
             s = rng.choice(strings)
-            meta_strings.append(s)
             S = gen_strings.go_quote(s)
-            if rng.random() < 0.3:
+            have = [(sp_, cn_) for sp_, cn_ in paths if cn_ in store]
+            k0 = rng.random()
+            if have and k0 < 0.3:
+                # the content is read from a file in the same statement (possibly from the file that is written)
+                qs_, qc_ = rng.choice(have) if rng.random() < 0.6 or canon not in store else (spelled, canon)
+                s = store[qc_].decode().rstrip("\n")
+                S = "read(%s)" % gen_strings.go_quote(qs_)
+                if k0 < 0.08:
+                    s, S = s + "+", S + ' + "+"'
+            elif k0 < 0.5:
                 body.append("c%d := %s" % (k, S))
                 S = "c%d" % k
+            meta_strings.append(s)
             # the append flag as a literal, a variable, an expression or the result of exists()
             def flag(v):
                 k2 = rng.random()
